@@ -846,6 +846,10 @@ func mutate1(r *common.Rng, b base) (kind, descr string, f []byte, strict bool) 
 		if fixUsize {
 			h.UncompressedSize = uint32(len(raw))
 		}
+		if r.Chance(30) { // the reserved per-block Flags must not switch any check off
+			h.Flags = []uint16{1, 2, 0x8000, 0xFFFF, uint16(r.U64())}[r.Intn(5)]
+			what += fmt.Sprintf(", Flags := %#x", h.Flags)
+		}
 		h.CompressedSize = uint32(len(comp))
 		h.Checksum = crc32.ChecksumIEEE(comp)
 		out := clone(f[:s])
